@@ -18,7 +18,7 @@ LEVEL_TEXT = ("Full-strength theorems over the ticker/device model for every wir
               "detection over histories where ports change, repeat and disappear.")
 LEVEL_NOTE = "Trusts: Lean kernel; hand-written ticker/device models (tied by acceptor and differential run); Python dict equality for change detection (values are ints in the runs)."
 ASSUMPTIONS = ["each input port has one source", "device outputs are mappings with hashable values compared by =="]
-MON = ("ticker", "change_detection", "device_order")
+MON = ("ticker", "change_detection", "device_order", "system_output")
 CORR = ("ticker", "sim")
 
 
